@@ -1,4 +1,4 @@
 From Coq Require Extraction ExtrOcamlBasic.
-From Wz Require Import lib.Bytes lib.ExtractBase C01.Gen C01.Model.
+From Wz Require Import lib.Bytes lib.ExtractBase C01.Gen C01.Model C01.HeaderBlock.
 Extraction Language OCaml.
-Extraction "C01/model_extracted.ml" force_types trace drive parts_of state_code.
+Extraction "C01/model_extracted.ml" force_types trace drive parts_of state_code parse_headers.
